@@ -5,11 +5,12 @@ V = os.path.dirname(os.path.dirname(os.path.abspath(__file__)))
 sys.path.insert(0, os.path.join(V, "harness")); sys.path.insert(0, "/repo")
 props = [json.loads(l) for l in open(os.path.join(V, "properties.jsonl"))]
 NA = json.load(open(os.path.join(V, "tools", "not_applicable.json"))) if os.path.exists(os.path.join(V, "tools", "not_applicable.json")) else {}
+ACCEPTED = set(json.load(open(os.path.join(V, "tools", "accepted.json"))))
 checks, na = [], []
 for p in props:
     pid = p["id"]
-    if not os.path.exists(os.path.join(V, "harness", "props", pid.lower() + ".py")) or pid in NA:
-        na.append({"property_id": pid, "reason": NA.get(pid, "check not built yet (build in progress; see DESIGN.md section 27)")}); continue
+    if not os.path.exists(os.path.join(V, "harness", "props", pid.lower() + ".py")) or pid in NA or pid not in ACCEPTED:
+        na.append({"property_id": pid, "reason": NA.get(pid, "check under construction / not yet reviewed by the coordinator (see DESIGN.md section 29)")}); continue
     mod = importlib.import_module("props." + pid.lower()); P = mod.PROPERTY
     checks.append({
         "property_id": pid, "quick_cmd": "./check %s quick" % pid, "thorough_cmd": "./check %s thorough" % pid,
